@@ -442,6 +442,24 @@ def value_adaptive(ctx, cfg, d, field, u0s, t0, save_at, tol, clip):
             ctx.skip("whitened residual cancels below 1e-7 of its summands")
         if not np.all(osc == osc[-1]):
             ctx.violation(f"{sigp}:output-scale-not-constant", "MLE output scale differs along the time axis", case)
+        # every forward-pass object of the MLE solver is unit-scale; the calibration multiplies all reported standard
+        # deviations once, at the end: at *every* checkpoint (interpolated ones included) std = scale x std of the same run
+        # with the uncalibrated solver (which takes the same steps: the error estimate does not read the calibration)
+        if not cfg.solver.endswith("nocorr"):
+            cfg0 = dataclasses.replace(cfg, solver="solver")
+            run0 = L.runner(cfg0, field)
+            sol0 = run0.save_at(clip)(*run0.args(u0s, t0, cfg.base_scale), jnp.asarray(save_at), tol, tol, 0.1)
+            if np.array_equal(np.asarray(sol0.num_steps), np.asarray(sol.num_steps)) and L.finite(sol0):
+                worst = 0.0
+                for sa, sb in zip(sol.u.std, sol0.u.std):
+                    sa, sb = np.asarray(sa, dtype=np.float64), np.asarray(sb, dtype=np.float64)
+                    sc = np.asarray(osc[-1], dtype=np.float64).reshape((1,) * (sa.ndim - 1) + (-1,)) if cfg.fact == "bd" else float(np.asarray(osc[-1]).reshape(-1)[0])
+                    ref = sb * sc
+                    worst = max(worst, float(np.max(np.abs(sa - ref) / (np.abs(ref) + 1e-300 + 1e-12 * np.max(np.abs(ref), initial=0.0)))))
+                ctx.dev("adaptive.mle.std-vs-unit-scale-run", worst, 1e-9, case=case, sig=f"{sigp}:std-is-not-scale-times-unit-scale-std",
+                        what=f"standard deviations at the checkpoints differ from (final scale) x (standard deviations of the uncalibrated run on the same steps) by {worst:.2e}")
+            else:
+                ctx.skip("adaptive MLE: uncalibrated run takes different steps (not compared)")
         if cfg.strategy == "filter":
             # returned covariances at the checkpoints: calibrated = (same run, uncalibrated solver) x scale^2 is checked in (c);
             # here: the terminal value. With clip_dt the last step ends at t1 and the raw state is the last accepted one.
@@ -660,6 +678,17 @@ def corpus(ctx):
     lin = problems.PolyField(2, 1, [[(Fraction(-1, 2), (1, 0, 0))], [(Fraction(1, 4), (1, 0, 0)), (Fraction(-1), (0, 1, 0))]])
     cfg = sm.Config(fact="bd", solver="mle", strategy="fixedinterval", lin="ts1", q=3, base_scale=[0.5, 3.0])
     equivariance_fixed(ctx, cfg, 2, lin, [np.array([1.0, -0.5])], 0.0, [0.25, 0.125, 0.25], [3.0, 2.0**-10])
+    # dynamic calibration under a large base scale: the local scale is (residual norm) / (base scale) ~ 1e-9, still far
+    # above the positivity floor eps of the implementation; it must be the documented estimate and divide by c exactly
+    # (seeded change C04-s2: floor sqrt(eps))
+    for fact in ("iso", "bd"):
+        cfgd = sm.Config(fact=fact, solver="dynamic", strategy="filter", lin="ts0", q=2, base_scale=(1.0 if fact == "iso" else [1.0, 2.0]))
+        equivariance_fixed(ctx, cfgd, 2, lin, [np.array([1.0, -0.5])], 0.0, [0.125, 0.25, 0.125, 0.25], [1e6, 2.0**20])
+    # adaptive MLE runs with checkpoints strictly inside steps (interpolation must use unit-scale transitions; seeded
+    # change C04-s1 was only seen by C03/C05): filter and fixed-point smoother, no clipping
+    for fact, strat in (("iso", "filter"), ("dense", "fixedpoint")) if ctx.quick else (("iso", "filter"), ("dense", "fixedpoint"), ("bd", "fixedpoint"), ("dense", "filter")):
+        cfg = sm.Config(fact=fact, solver="mle", strategy=strat, lin="ts0", q=2)
+        value_adaptive(ctx, cfg, 2, lin, [np.array([1.0, -0.5])], 0.0, np.array([0.0, 0.3, 0.55, 1.0]), 1e-3, clip=False)
 
 
 def run(ctx):
